@@ -113,7 +113,10 @@ where
     let mut overflow = false;
     if let Some(b'-') = reader.request_byte_at_offset(offset) {
         if let Some(digit @ b'0'..=b'9') = reader.request_byte_at_offset(offset + 1) {
-            value = I::zero() - (I::from_u8(digit - b'0').unwrap());
+            let (new_value, overflowed) =
+                value.overflowing_sub(&I::from_u8(digit - b'0').unwrap());
+            overflow |= overflowed;
+            value = new_value;
             offset += 2;
             while let Some(digit @ b'0'..=b'9') = reader.request_byte_at_offset(offset) {
                 offset += 1;
